@@ -23,7 +23,7 @@ PROP = {
                   "(/control/clients/*) is not driven, concurrency is C05's subject. Trusts net/netip for "
                   "network containment.",
     "tests": [
-        ("TestVFC04Machine", (1500, 6000), {"steps": 40, "shards": (3, 16)}),
+        ("TestVFC04Machine", (1000, 3500), {"steps": 40, "shards": (3, 16)}),
         ("TestVFC04Precedence", (6000, 25000), {"shards": (1, 16)}),
     ],
     "plain": [],
@@ -34,7 +34,8 @@ PROP = {
             "A history is non-trivial if it contains an accepted update that drops or moves an identifier, or an "
             "operation rejected because of a shared name/identifier, or a request decided by CIDR specificity "
             "among networks of different clients or by the DHCP lease's MAC; a precedence case is non-trivial if "
-            "at least two precedence levels have a candidate or at least two stored networks contain the address. "
+            "at least two precedence levels have a candidate, or at least two stored networks contain the address, "
+            "or the lease's MAC decides. "
             "Distinct = FNV-64 of the full operation sequence with outcomes, resp. of (request, registry).",
     "assumptions": [
         "net/netip decides network containment and address identity (zones, IPv4-mapped) correctly",
